@@ -4,7 +4,8 @@ TIER=${1:-quick}
 cd /verif
 for id in $(python3 -c "import json;print(' '.join(c['property_id'] for c in json.load(open('MANIFEST.json'))['checks']))"); do
   s=$(date +%s)
-  out=$(timeout 3600 ./bin/sv check $id --tier $TIER 2>&1); rc=$?
+  out=$(timeout 7200 ./bin/sv check $id --tier $TIER 2>&1); rc=$?
+  mkdir -p .work/logs; echo "$out" > .work/logs/$id-$TIER.log
   e=$(date +%s)
   echo "$id exit=$rc wall=$((e-s))s $(echo "$out" | grep -E '^(RESULT|VIOLATION|KNOWN|MODEL|LOAD|ENCODER)' | head -3 | tr '\n' ' ' | cut -c1-200)"
 done
